@@ -67,7 +67,8 @@ TARGETS = {'mod': 'fz', 'cls': 'fz.K', 'meth': 'fz.K.meth', 'prop': 'fz.K.prop',
 
 def cases(tier: str, seed: int) -> List[Dict[str, Any]]:
     n = 4000 if tier == 'quick' else 150000
-    return [{'seed': seed, 'k': k, 'n': PER} for k in range(0, n, PER)]
+    # a batch takes a few CPU seconds; one that takes minutes is re-run alone with four times the budget before it counts as a hang
+    return [{'seed': seed, 'k': k, 'n': PER, 'cpu_s': 150} for k in range(0, n, PER)]
 
 
 # ---- M-DOC --------------------------------------------------------------------------------------------
